@@ -4,8 +4,8 @@ import PermutaModel.Lemmas.C07Sched
 
 * `account t` = levels already returned ++ level in flight ++ levels still to ask for; the list
   `threads.map account` never changes, so a finished thread has answered exactly its requests, in order.
-* `mu s` = an upper bound on the number of non-stuttering steps still possible (`2n+4` per level `n` still
-  to fetch: acquire, at most `2n+1` writes, release, read).  Every step either stutters (`step s tid = s`)
+* `mu fast s` = an upper bound on the number of non-stuttering steps still possible (`2n+4` per level `n` still
+  to fetch: acquire, at most `2n+1` writes, release, read; one more with the lock-free fast path: the test).  Every step either stutters (`step s tid = s`)
   or decreases `mu`; in a reachable state that is not finished some thread can decrease it.  Hence
   no deadlock, and every schedule made of `mu s` *fair rounds* (segments containing every thread id)
   finishes all threads. -/
@@ -14,9 +14,11 @@ open Model.C02 Model.C07
 
 /-! ## bookkeeping -/
 
-/-- the level a thread is currently fetching (inside the critical section or about to read) -/
+/-- the level a thread is currently fetching (committed to the locked path, inside the critical section,
+    or about to read) -/
 def pending (t : Thread) : List Nat :=
   match t.phase with
+  | .waiting n => [n]
   | .holding n _ => [n]
   | .reading n => [n]
   | .idle => []
@@ -25,26 +27,29 @@ def pending (t : Thread) : List Nat :=
 /-- levels answered ++ level in flight ++ levels not yet asked for -/
 def account (t : Thread) : List Nat := t.got.map (·.1) ++ pending t ++ t.todo
 
-/-- cost bound of fetching level `n`: acquire + at most `2n+1` writes + release + read -/
-def lvlCost (n : Nat) : Nat := 2 * n + 4
+/-- cost bound of fetching level `n`: (with the fast path: the lock-free test +) acquire + at most
+    `2n+1` writes + release + read -/
+def lvlCost (fast : Bool) (n : Nat) : Nat := 2 * n + 4 + fast.toNat
 
-def todoCost (td : List Nat) : Nat := (td.map lvlCost).sum
+def todoCost (fast : Bool) (td : List Nat) : Nat := (td.map (lvlCost fast)).sum
 
 /-- upper bound on the number of non-stuttering steps thread `t` can still take -/
-def cost (t : Thread) : Nat :=
+def cost (fast : Bool) (t : Thread) : Nat :=
   match t.phase with
   | .failed _ => 0
-  | .idle => todoCost t.todo
-  | .holding _ plan => plan.length + 2 + todoCost t.todo
-  | .reading _ => 1 + todoCost t.todo
+  | .idle => todoCost fast t.todo
+  | .waiting n => 2 * n + 4 + todoCost fast t.todo
+  | .holding _ plan => plan.length + 2 + todoCost fast t.todo
+  | .reading _ => 1 + todoCost fast t.todo
 
-def mu (s : Sys) : Nat := (s.threads.map cost).sum
+def mu (fast : Bool) (s : Sys) : Nat := (s.threads.map (cost fast)).sum
 
 /-- thread `t` can take a non-stuttering step in `s` -/
-def Active (s : Sys) (t : Thread) : Prop :=
+def Active (d : Disc) (s : Sys) (t : Thread) : Prop :=
   match t.phase with
   | .failed _ => False
-  | .idle => t.todo ≠ [] ∧ s.lock = none
+  | .idle => t.todo ≠ [] ∧ (d.fast = true ∨ s.lock = none)
+  | .waiting _ => s.lock = none
   | .holding _ _ => True
   | .reading _ => True
 
@@ -145,12 +150,28 @@ theorem sum_map_set_lt {α} (f : α → Nat) : ∀ {l : List α} {i : Nat} {t t'
 
 /-! ## the master case analysis of one step -/
 
+/-- entering the critical section: blocked (no change), or the thread's record is replaced by a failed
+    one / by one holding the lock with a plan of at most `2n+1` writes -/
+theorem tryAcquire_cases (s : Sys) (tid : Nat) (t : Thread) (n : Nat) (rest : List Nat) :
+    (tryAcquire s tid t n rest = s ∧ ∃ h, s.lock = some h) ∨
+    (s.lock = none ∧ ∃ t', (tryAcquire s tid t n rest).threads = s.threads.set tid t' ∧
+      ((∃ e, t' = { t with todo := n :: rest, phase := .failed e }) ∨
+       (∃ plan, t' = { t with todo := rest, phase := .holding n plan } ∧ plan.length ≤ 2 * n + 1))) := by
+  unfold tryAcquire
+  cases hl : s.lock with
+  | some h => exact .inl ⟨rfl, h, rfl⟩
+  | none =>
+    simp only []
+    cases he : ensureTrace s.obj n with
+    | error e => exact .inr ⟨by trivial, _, rfl, .inl ⟨e, rfl⟩⟩
+    | ok plan => exact .inr ⟨by trivial, _, rfl, .inr ⟨plan, rfl, ensureTrace_length_le _ _ _ he⟩⟩
+
 /-- one step either stutters (and then the thread was not active) or replaces the stepping thread's
     record by one with the same account and a strictly smaller cost -/
-theorem step_cases (s : Sys) (tid : Nat) :
-    (step s tid = s ∧ ∀ t, s.threads[tid]? = some t → ¬ Active s t) ∨
-    (∃ t t', s.threads[tid]? = some t ∧ (step s tid).threads = s.threads.set tid t' ∧
-      account t' = account t ∧ cost t' < cost t) := by
+theorem step_cases (d : Disc) (s : Sys) (tid : Nat) :
+    (step d s tid = s ∧ ∀ t, s.threads[tid]? = some t → ¬ Active d s t) ∨
+    (∃ t t', s.threads[tid]? = some t ∧ (step d s tid).threads = s.threads.set tid t' ∧
+      account t' = account t ∧ cost d.fast t' < cost d.fast t) := by
   unfold step
   cases htid : s.threads[tid]? with
   | none => exact .inl ⟨rfl, by intro t h; cases h⟩
@@ -165,103 +186,121 @@ theorem step_cases (s : Sys) (tid : Nat) :
       | nil => exact .inl ⟨rfl, by intro t' h; cases h; simp [Active, hp, htd]⟩
       | cons n rest =>
         simp only []
-        cases hl : s.lock with
-        | some h => exact .inl ⟨rfl, by intro t' h; cases h; simp [Active, hp, hl]⟩
-        | none =>
+        cases hf : d.fast with
+        | false =>
           simp only []
-          cases he : ensureTrace s.obj n with
-          | error e =>
+          rcases tryAcquire_cases s tid t n rest with ⟨h1, h, hl⟩ | ⟨hl, t', hth, hc⟩
+          · exact .inl ⟨h1, by intro t' h'; cases h'; simp [Active, hp, hl, hf]⟩
+          · refine .inr ⟨t, t', rfl, hth, ?_⟩
+            rcases hc with ⟨e, rfl⟩ | ⟨plan, rfl, hlen⟩
+            · refine ⟨by simp [account, pending, hp, htd], ?_⟩
+              simp [cost, hp, htd, todoCost, lvlCost] <;> omega
+            · refine ⟨by simp [account, pending, hp, htd], ?_⟩
+              simp [cost, hp, htd, todoCost, lvlCost] <;> omega
+        | true =>
+          simp only []
+          cases hg : d.guard n s.obj.cache.length with
+          | true =>
             refine .inr ⟨t, _, rfl, rfl, ?_, ?_⟩
             · simp [account, pending, hp, htd]
-            · simp [cost, hp, htd, todoCost, lvlCost]; omega
-          | ok plan =>
+            · simp [cost, hp, htd, todoCost, lvlCost] <;> omega
+          | false =>
             refine .inr ⟨t, _, rfl, rfl, ?_, ?_⟩
             · simp [account, pending, hp, htd]
-            · have := ensureTrace_length_le _ _ _ he
-              simp [cost, hp, htd, todoCost, lvlCost]; omega
+            · simp [cost, hp, htd, todoCost, lvlCost] <;> omega
+    | waiting n =>
+      simp only []
+      rcases tryAcquire_cases s tid t n t.todo with ⟨h1, h, hl⟩ | ⟨hl, t', hth, hc⟩
+      · exact .inl ⟨h1, by intro t' h'; cases h'; simp [Active, hp, hl]⟩
+      · refine .inr ⟨t, t', rfl, hth, ?_⟩
+        rcases hc with ⟨e, rfl⟩ | ⟨plan, rfl, hlen⟩
+        · refine ⟨by simp [account, pending, hp], ?_⟩
+          simp [cost, hp, todoCost] <;> omega
+        · refine ⟨by simp [account, pending, hp], ?_⟩
+          simp [cost, hp] <;> omega
     | holding n plan =>
       cases plan with
       | cons w ws =>
         refine .inr ⟨t, _, rfl, rfl, ?_, ?_⟩
         · simp [account, pending, hp]
-        · simp [cost, hp]
+        · simp [cost, hp] <;> omega
       | nil =>
         refine .inr ⟨t, _, rfl, rfl, ?_, ?_⟩
         · simp [account, pending, hp]
-        · simp [cost, hp]
+        · simp [cost, hp] <;> omega
     | reading n =>
       refine .inr ⟨t, _, rfl, rfl, ?_, ?_⟩
       · simp [account, pending, hp]
-      · simp [cost, hp]
+      · simp [cost, hp] <;> omega
 
 /-- **bookkeeping invariant**: no step changes any thread's account -/
-theorem step_account (s : Sys) (tid : Nat) :
-    (step s tid).threads.map account = s.threads.map account := by
-  rcases step_cases s tid with ⟨h, _⟩ | ⟨t, t', ht, hth, hacc, _⟩
+theorem step_account (d : Disc) (s : Sys) (tid : Nat) :
+    (step d s tid).threads.map account = s.threads.map account := by
+  rcases step_cases d s tid with ⟨h, _⟩ | ⟨t, t', ht, hth, hacc, _⟩
   · rw [h]
   · rw [hth]; exact map_set_same account ht hacc
 
-theorem run_account (sched : List Nat) : ∀ (s : Sys),
-    (run s sched).threads.map account = s.threads.map account := by
+theorem run_account (d : Disc) (sched : List Nat) : ∀ (s : Sys),
+    (run d s sched).threads.map account = s.threads.map account := by
   induction sched with
   | nil => intro s; rfl
-  | cons a rest ih => intro s; show (run (step s a) rest).threads.map account = _; rw [ih, step_account]
+  | cons a rest ih => intro s; show (run d (step d s a) rest).threads.map account = _; rw [ih, step_account]
 
-theorem step_length (s : Sys) (tid : Nat) : (step s tid).threads.length = s.threads.length := by
-  have := congrArg List.length (step_account s tid)
+theorem step_length (d : Disc) (s : Sys) (tid : Nat) : (step d s tid).threads.length = s.threads.length := by
+  have := congrArg List.length (step_account d s tid)
   simpa using this
 
-theorem run_length (sched : List Nat) (s : Sys) : (run s sched).threads.length = s.threads.length := by
-  have := congrArg List.length (run_account sched s)
+theorem run_length (d : Disc) (sched : List Nat) (s : Sys) : (run d s sched).threads.length = s.threads.length := by
+  have := congrArg List.length (run_account d sched s)
   simpa using this
 
 /-- every step stutters or strictly decreases `mu` -/
-theorem step_dich (s : Sys) (tid : Nat) : step s tid = s ∨ mu (step s tid) < mu s := by
-  rcases step_cases s tid with ⟨h, _⟩ | ⟨t, t', ht, hth, _, hc⟩
+theorem step_dich (d : Disc) (s : Sys) (tid : Nat) : step d s tid = s ∨ mu d.fast (step d s tid) < mu d.fast s := by
+  rcases step_cases d s tid with ⟨h, _⟩ | ⟨t, t', ht, hth, _, hc⟩
   · exact .inl h
-  · right; unfold mu; rw [hth]; exact sum_map_set_lt cost ht hc
+  · right; unfold mu; rw [hth]; exact sum_map_set_lt (cost d.fast) ht hc
 
 /-- an active thread's step strictly decreases `mu` -/
-theorem step_active {s : Sys} {tid : Nat} {t : Thread} (ht : s.threads[tid]? = some t)
-    (ha : Active s t) : mu (step s tid) < mu s := by
-  rcases step_cases s tid with ⟨_, h⟩ | ⟨t, t', ht, hth, _, hc⟩
+theorem step_active {d : Disc} {s : Sys} {tid : Nat} {t : Thread} (ht : s.threads[tid]? = some t)
+    (ha : Active d s t) : mu d.fast (step d s tid) < mu d.fast s := by
+  rcases step_cases d s tid with ⟨_, h⟩ | ⟨t, t', ht, hth, _, hc⟩
   · exact absurd ha (h t ht)
-  · unfold mu; rw [hth]; exact sum_map_set_lt cost ht hc
+  · unfold mu; rw [hth]; exact sum_map_set_lt (cost d.fast) ht hc
 
-theorem step_mu_le (s : Sys) (tid : Nat) : mu (step s tid) ≤ mu s := by
-  rcases step_dich s tid with h | h
+theorem step_mu_le (d : Disc) (s : Sys) (tid : Nat) : mu d.fast (step d s tid) ≤ mu d.fast s := by
+  rcases step_dich d s tid with h | h
   · rw [h]; exact Nat.le_refl _
   · exact Nat.le_of_lt h
 
-theorem run_mu_le (sched : List Nat) : ∀ (s : Sys), mu (run s sched) ≤ mu s := by
+theorem run_mu_le (d : Disc) (sched : List Nat) : ∀ (s : Sys), mu d.fast (run d s sched) ≤ mu d.fast s := by
   induction sched with
   | nil => intro s; exact Nat.le_refl _
   | cons a rest ih =>
     intro s
-    show mu (run (step s a) rest) ≤ mu s
-    exact Nat.le_trans (ih _) (step_mu_le s a)
+    show mu d.fast (run d (step d s a) rest) ≤ mu d.fast s
+    exact Nat.le_trans (ih _) (step_mu_le d s a)
 
 /-- if thread `tid` can decrease `mu` now, any schedule segment that contains `tid` decreases `mu`
     (either an earlier step already did, or the state is unchanged when `tid`'s turn comes) -/
-theorem run_lt_of_mem {s : Sys} {tid : Nat} (h : mu (step s tid) < mu s) :
-    ∀ seg : List Nat, tid ∈ seg → mu (run s seg) < mu s := by
+theorem run_lt_of_mem {d : Disc} {s : Sys} {tid : Nat} (h : mu d.fast (step d s tid) < mu d.fast s) :
+    ∀ seg : List Nat, tid ∈ seg → mu d.fast (run d s seg) < mu d.fast s := by
   intro seg
   induction seg with
   | nil => intro hm; cases hm
   | cons a rest ih =>
     intro hm
-    show mu (run (step s a) rest) < mu s
-    rcases step_dich s a with hst | hlt
+    show mu d.fast (run d (step d s a) rest) < mu d.fast s
+    rcases step_dich d s a with hst | hlt
     · rw [hst]
       apply ih
       rcases List.mem_cons.mp hm with rfl | hm'
       · rw [hst] at h; exact absurd h (Nat.lt_irrefl _)
       · exact hm'
-    · exact Nat.lt_of_le_of_lt (run_mu_le rest _) hlt
+    · exact Nat.lt_of_le_of_lt (run_mu_le d rest _) hlt
 
 /-! ## finished states are stable -/
 
-theorem step_allDone {s : Sys} (h : AllDone s) (tid : Nat) : step s tid = s := by
+theorem step_allDone {d : Disc} {s : Sys} (h : AllDone s) (tid : Nat) : step d s tid = s := by
   unfold step
   cases htid : s.threads[tid]? with
   | none => rfl
@@ -269,14 +308,49 @@ theorem step_allDone {s : Sys} (h : AllDone s) (tid : Nat) : step s tid = s := b
     have hd := h t (List.mem_iff_getElem?.mpr ⟨tid, htid⟩)
     simp [hd.1, hd.2]
 
-theorem run_allDone {s : Sys} (h : AllDone s) (sched : List Nat) : run s sched = s := by
+theorem run_allDone {d : Disc} {s : Sys} (h : AllDone s) (sched : List Nat) : run d s sched = s := by
   induction sched with
   | nil => rfl
-  | cons a rest ih => show run (step s a) rest = s; rw [step_allDone h]; exact ih
+  | cons a rest ih => show run d (step d s a) rest = s; rw [step_allDone h]; exact ih
 
 /-! ## the lock-holder invariant -/
 
-theorem step_lockOK {s : Sys} (h : LockOK s) (tid : Nat) : LockOK (step s tid) := by
+/-- replacing the record of a thread that is not inside the critical section by another such record
+    (lock untouched) keeps the lock-holder invariant -/
+theorem lockOK_setThread {s : Sys} (h : LockOK s) {tid : Nat} {t t' : Thread}
+    (htid : s.threads[tid]? = some t) (hnh : ∀ n plan, t.phase ≠ .holding n plan) :
+    LockOK (s.setThread tid t') := by
+  intro h' hh
+  have hh' : s.lock = some h' := by simpa [Sys.setThread] using hh
+  obtain ⟨th, n', plan', hth, hph⟩ := h h' hh'
+  rw [getElem?_setThread]
+  by_cases hc : tid = h' ∧ tid < s.threads.length
+  · obtain ⟨rfl, _⟩ := hc
+    rw [htid] at hth; cases hth
+    exact absurd hph (hnh n' plan')
+  · rw [if_neg hc]; exact ⟨th, n', plan', hth, hph⟩
+
+theorem tryAcquire_lockOK {s : Sys} (h : LockOK s) {tid : Nat} {t : Thread}
+    (htid : s.threads[tid]? = some t) (n : Nat) (rest : List Nat) : LockOK (tryAcquire s tid t n rest) := by
+  have hlt := lt_of_getElem? htid
+  unfold tryAcquire
+  cases hl : s.lock with
+  | some h' => simpa using h
+  | none =>
+    simp only []
+    cases he : ensureTrace s.obj n with
+    | error e =>
+      intro h' hh
+      simp [Sys.setThread, hl] at hh
+    | ok plan =>
+      intro h' hh
+      simp only [Sys.setThread, Option.some.injEq] at hh
+      subst hh
+      refine ⟨{ t with todo := rest, phase := .holding n plan }, n, plan, ?_, rfl⟩
+      rw [getElem?_setThread]
+      simp [hlt]
+
+theorem step_lockOK {d : Disc} {s : Sys} (h : LockOK s) (tid : Nat) : LockOK (step d s tid) := by
   unfold step
   cases htid : s.threads[tid]? with
   | none => exact h
@@ -291,21 +365,14 @@ theorem step_lockOK {s : Sys} (h : LockOK s) (tid : Nat) : LockOK (step s tid) :
       | nil => exact h
       | cons n rest =>
         simp only []
-        cases hl : s.lock with
-        | some h' => exact h
-        | none =>
+        cases hf : d.fast with
+        | false => exact tryAcquire_lockOK h htid n rest
+        | true =>
           simp only []
-          cases he : ensureTrace s.obj n with
-          | error e =>
-            intro h' hh
-            simp [Sys.setThread, hl] at hh
-          | ok plan =>
-            intro h' hh
-            simp only [Sys.setThread, Option.some.injEq] at hh
-            subst hh
-            refine ⟨{ t with todo := rest, phase := .holding n plan }, n, plan, ?_, rfl⟩
-            rw [getElem?_setThread]
-            simp [hlt]
+          cases hg : d.guard n s.obj.cache.length with
+          | true => exact lockOK_setThread h htid (by rw [hp]; intro _ _ h; cases h)
+          | false => exact lockOK_setThread h htid (by rw [hp]; intro _ _ h; cases h)
+    | waiting n => exact tryAcquire_lockOK h htid n t.todo
     | holding n plan =>
       cases plan with
       | cons w ws =>
@@ -319,18 +386,9 @@ theorem step_lockOK {s : Sys} (h : LockOK s) (tid : Nat) : LockOK (step s tid) :
       | nil =>
         intro h' hh
         simp [Sys.setThread] at hh
-    | reading n =>
-      intro h' hh
-      have hh' : s.lock = some h' := by simpa [Sys.setThread] using hh
-      obtain ⟨th, n', plan', hth, hph⟩ := h h' hh'
-      rw [getElem?_setThread]
-      by_cases hc : tid = h' ∧ tid < s.threads.length
-      · obtain ⟨rfl, _⟩ := hc
-        rw [htid] at hth; cases hth
-        rw [hp] at hph; cases hph
-      · rw [if_neg hc]; exact ⟨th, n', plan', hth, hph⟩
+    | reading n => exact lockOK_setThread h htid (by rw [hp]; intro _ _ h; cases h)
 
-theorem run_lockOK (sched : List Nat) : ∀ {s : Sys}, LockOK s → LockOK (run s sched) := by
+theorem run_lockOK {d : Disc} (sched : List Nat) : ∀ {s : Sys}, LockOK s → LockOK (run d s sched) := by
   induction sched with
   | nil => intro s h; exact h
   | cons a rest ih => intro s h; exact ih (step_lockOK h a)
@@ -360,8 +418,8 @@ theorem inv_noFail {spec Good base s} (hi : Inv spec Good base s) : NoFail s := 
   rw [he] at this; exact this
 
 /-- **no deadlock, one step**: in a live state in which no thread can decrease `mu`, all threads are done -/
-theorem allDone_of_stuck {s : Sys} (hL : Live s)
-    (hno : ∀ tid, tid < s.threads.length → ¬ mu (step s tid) < mu s) : AllDone s := by
+theorem allDone_of_stuck {d : Disc} {s : Sys} (hL : Live s)
+    (hno : ∀ tid, tid < s.threads.length → ¬ mu d.fast (step d s tid) < mu d.fast s) : AllDone s := by
   cases hl : s.lock with
   | some h =>
     obtain ⟨t, n, plan, ht, hp⟩ := hL.lockOK h hl
@@ -369,10 +427,11 @@ theorem allDone_of_stuck {s : Sys} (hL : Live s)
   | none =>
     intro t ht
     obtain ⟨i, hi⟩ := List.mem_iff_getElem?.mp ht
-    have hna : ¬ Active s t := fun ha => hno i (lt_of_getElem? hi) (step_active hi ha)
+    have hna : ¬ Active d s t := fun ha => hno i (lt_of_getElem? hi) (step_active hi ha)
     unfold Done
     cases hp : t.phase with
     | failed e => exact absurd hp (hL.noFail t ht e)
+    | waiting n => exact absurd (by simp [Active, hp, hl]) hna
     | holding n plan => exact absurd (by simp [Active, hp]) hna
     | reading n => exact absurd (by simp [Active, hp]) hna
     | idle =>
@@ -381,19 +440,19 @@ theorem allDone_of_stuck {s : Sys} (hL : Live s)
       | nil => rfl
       | cons n rest => exact absurd (by simp [Active, hp, htd, hl]) hna
 
-theorem exists_enabled {s : Sys} (hL : Live s) (hnd : ¬ AllDone s) :
-    ∃ tid, tid < s.threads.length ∧ mu (step s tid) < mu s := by
+theorem exists_enabled {d : Disc} {s : Sys} (hL : Live s) (hnd : ¬ AllDone s) :
+    ∃ tid, tid < s.threads.length ∧ mu d.fast (step d s tid) < mu d.fast s := by
   apply Classical.byContradiction
   intro hne
   exact hnd (allDone_of_stuck hL fun tid hlt hmu => hne ⟨tid, hlt, hmu⟩)
 
 /-- a *fair round* (a segment containing every thread id) either starts in a finished state or
     strictly decreases `mu` -/
-theorem round_progress {s : Sys} (hL : Live s) (seg : List Nat)
-    (hfair : ∀ tid, tid < s.threads.length → tid ∈ seg) : AllDone s ∨ mu (run s seg) < mu s := by
+theorem round_progress {d : Disc} {s : Sys} (hL : Live s) (seg : List Nat)
+    (hfair : ∀ tid, tid < s.threads.length → tid ∈ seg) : AllDone s ∨ mu d.fast (run d s seg) < mu d.fast s := by
   by_cases hd : AllDone s
   · exact .inl hd
-  · obtain ⟨tid, hlt, hmu⟩ := exists_enabled hL hd
+  · obtain ⟨tid, hlt, hmu⟩ := exists_enabled (d := d) hL hd
     exact .inr (run_lt_of_mem hmu seg (hfair tid hlt))
 
 /-- reachability package: the C07 invariant (for some base) and the lock-holder invariant -/
@@ -404,10 +463,10 @@ theorem Reach.live {spec Good s} (h : Reach spec Good s) : Live s :=
   let ⟨⟨_, hi⟩, hl⟩ := h
   ⟨hl, inv_noFail hi⟩
 
-theorem Reach.run {spec Good} (hs : SeqOK spec Good) {s : Sys} (h : Reach spec Good s) (sched : List Nat) :
-    Reach spec Good (run s sched) :=
+theorem Reach.run {spec Good} (hs : SeqOK spec Good) {d : Disc} (hd : d.OK) {s : Sys}
+    (h : Reach spec Good s) (sched : List Nat) : Reach spec Good (run d s sched) :=
   let ⟨⟨_, hi⟩, hl⟩ := h
-  ⟨run_inv hs sched hi, run_lockOK sched hl⟩
+  ⟨run_inv hs hd sched hi, run_lockOK sched hl⟩
 
 theorem Reach.init {spec Good} (hs : SeqOK spec Good) (o : AvObj) (ho : Good o) (todos : List (List Nat)) :
     Reach spec Good (initSys o todos) :=
@@ -415,42 +474,44 @@ theorem Reach.init {spec Good} (hs : SeqOK spec Good) (o : AvObj) (ho : Good o) 
 
 /-- **deadlock freedom with an explicit bound**: from every reachable state there is a continuation of
     at most `mu s` steps after which all threads are finished -/
-theorem exists_completion {spec Good} (hs : SeqOK spec Good) : ∀ (k : Nat) {s : Sys},
-    Reach spec Good s → mu s ≤ k → ∃ cont : List Nat, cont.length ≤ mu s ∧ AllDone (run s cont) := by
+theorem exists_completion {spec Good} (hs : SeqOK spec Good) {d : Disc} (hd : d.OK) : ∀ (k : Nat) {s : Sys},
+    Reach spec Good s → mu d.fast s ≤ k →
+    ∃ cont : List Nat, cont.length ≤ mu d.fast s ∧ AllDone (run d s cont) := by
   intro k
   induction k with
   | zero =>
     intro s hr hk
     refine ⟨[], Nat.zero_le _, ?_⟩
     show AllDone s
-    exact allDone_of_stuck hr.live fun tid _ h => by omega
+    exact allDone_of_stuck (d := d) hr.live fun tid _ h => by omega
   | succ k ih =>
     intro s hr hk
-    by_cases hd : AllDone s
-    · exact ⟨[], Nat.zero_le _, hd⟩
-    · obtain ⟨tid, _, hmu⟩ := exists_enabled hr.live hd
-      have hr' : Reach spec Good (step s tid) := hr.run hs [tid]
+    by_cases hdn : AllDone s
+    · exact ⟨[], Nat.zero_le _, hdn⟩
+    · obtain ⟨tid, _, hmu⟩ := exists_enabled (d := d) hr.live hdn
+      have hr' : Reach spec Good (step d s tid) := hr.run hs hd [tid]
       obtain ⟨cont, hlen, hdone⟩ := ih hr' (by omega)
       exact ⟨tid :: cont, by simp only [List.length_cons]; omega, hdone⟩
 
 /-- **progress under fairness**: `mu s` fair rounds finish every thread, whatever else the rounds contain -/
-theorem fair_rounds_finish {spec Good} (hs : SeqOK spec Good) : ∀ (segs : List (List Nat)) {s : Sys},
+theorem fair_rounds_finish {spec Good} (hs : SeqOK spec Good) {d : Disc} (hd : d.OK) :
+    ∀ (segs : List (List Nat)) {s : Sys},
     Reach spec Good s → (∀ seg ∈ segs, ∀ tid, tid < s.threads.length → tid ∈ seg) →
-    mu s ≤ segs.length → AllDone (run s segs.flatten) := by
+    mu d.fast s ≤ segs.length → AllDone (run d s segs.flatten) := by
   intro segs
   induction segs with
   | nil =>
     intro s hr _ hk
     show AllDone s
-    exact allDone_of_stuck hr.live fun tid _ h => by simp at hk; omega
+    exact allDone_of_stuck (d := d) hr.live fun tid _ h => by simp at hk; omega
   | cons seg segs ih =>
     intro s hr hfair hk
-    have hsplit : run s (seg :: segs).flatten = run (run s seg) segs.flatten := by
+    have hsplit : run d s (seg :: segs).flatten = run d (run d s seg) segs.flatten := by
       simp [run, List.foldl_append]
     rw [hsplit]
-    rcases round_progress hr.live seg (hfair seg (by simp)) with hd | hlt
-    · rw [run_allDone hd seg, run_allDone hd]; exact hd
-    · apply ih (hr.run hs seg)
+    rcases round_progress (d := d) hr.live seg (hfair seg (by simp)) with hdn | hlt
+    · rw [run_allDone hdn seg, run_allDone hdn]; exact hdn
+    · apply ih (hr.run hs hd seg)
       · intro seg' hseg' tid htid
         rw [run_length] at htid
         exact hfair seg' (by simp [hseg']) tid htid
@@ -458,17 +519,78 @@ theorem fair_rounds_finish {spec Good} (hs : SeqOK spec Good) : ∀ (segs : List
 
 /-! ## the initial state -/
 
-/-- total cost bound of a workload: `2n+4` per requested level `n` -/
-def totalCost (todos : List (List Nat)) : Nat := (todos.map todoCost).sum
+/-- total cost bound of a workload: `2n+4` (`2n+5` with the fast path) per requested level `n` -/
+def totalCost (fast : Bool) (todos : List (List Nat)) : Nat := (todos.map (todoCost fast)).sum
 
 theorem init_account (o : AvObj) (todos : List (List Nat)) :
     (initSys o todos).threads.map account = todos := by
   simp [initSys, account, pending, Function.comp_def]
 
-theorem init_mu (o : AvObj) (todos : List (List Nat)) : mu (initSys o todos) = totalCost todos := by
+theorem init_mu (fast : Bool) (o : AvObj) (todos : List (List Nat)) :
+    mu fast (initSys o todos) = totalCost fast todos := by
   simp [initSys, mu, totalCost, cost, Function.comp_def]
 
 theorem init_length (o : AvObj) (todos : List (List Nat)) : (initSys o todos).threads.length = todos.length := by
   simp [initSys]
+
+/-! ## the plain discipline does not use the extra phase -/
+
+/-- no thread is committed-and-blocked (`waiting`): the extra phase of double-checked locking is unused -/
+def NoWaiting (s : Sys) : Prop := ∀ t ∈ s.threads, ∀ n, t.phase ≠ .waiting n
+
+theorem noWaiting_setThread {s : Sys} (h : NoWaiting s) (tid : Nat) (t' : Thread)
+    (ht' : ∀ n, t'.phase ≠ .waiting n) : NoWaiting (s.setThread tid t') := by
+  intro t ht n
+  obtain ⟨j, hj⟩ := List.mem_iff_getElem?.mp ht
+  rw [getElem?_setThread] at hj
+  by_cases hc : tid = j ∧ tid < s.threads.length
+  · rw [if_pos hc] at hj; cases hj; exact ht' n
+  · rw [if_neg hc] at hj; exact h t (List.mem_iff_getElem?.mpr ⟨j, hj⟩) n
+
+theorem tryAcquire_noWaiting {s : Sys} (h : NoWaiting s) (tid : Nat) (t : Thread) (n : Nat) (rest : List Nat) :
+    NoWaiting (tryAcquire s tid t n rest) := by
+  unfold tryAcquire
+  cases s.lock with
+  | some _ => exact h
+  | none =>
+    simp only []
+    cases ensureTrace s.obj n with
+    | error e => exact noWaiting_setThread h tid _ (by intro m hm; cases hm)
+    | ok plan =>
+      exact noWaiting_setThread (s := { s with lock := some tid }) h tid _ (by intro m hm; cases hm)
+
+/-- under the plain discipline the machine never uses the `waiting` phase: it is the machine without it -/
+theorem step_noWaiting {d : Disc} (hf : d.fast = false) {s : Sys} (h : NoWaiting s) (tid : Nat) :
+    NoWaiting (step d s tid) := by
+  unfold step
+  cases htid : s.threads[tid]? with
+  | none => exact h
+  | some t =>
+    simp only []
+    cases hp : t.phase with
+    | failed e => exact h
+    | idle =>
+      simp only []
+      cases htd : t.todo with
+      | nil => exact h
+      | cons n rest => simp only [hf]; exact tryAcquire_noWaiting h tid t n rest
+    | waiting n => exact tryAcquire_noWaiting h tid t n t.todo
+    | holding n plan =>
+      cases plan with
+      | cons w ws => exact noWaiting_setThread (s := { s with obj := w }) h tid _ (by intro m hm; cases hm)
+      | nil => exact noWaiting_setThread (s := { s with lock := none }) h tid _ (by intro m hm; cases hm)
+    | reading n => exact noWaiting_setThread h tid _ (by intro m hm; cases hm)
+
+theorem run_noWaiting {d : Disc} (hf : d.fast = false) (sched : List Nat) :
+    ∀ {s : Sys}, NoWaiting s → NoWaiting (run d s sched) := by
+  induction sched with
+  | nil => intro s h; exact h
+  | cons a rest ih => intro s h; exact ih (step_noWaiting hf h a)
+
+theorem init_noWaiting (o : AvObj) (todos : List (List Nat)) : NoWaiting (initSys o todos) := by
+  intro t ht n
+  simp only [initSys, List.mem_map] at ht
+  obtain ⟨td, _, rfl⟩ := ht
+  intro h; cases h
 
 end C07L
